@@ -31,9 +31,9 @@ CLAIMS = {
    note=TB + " lalrpop 0.19.8 (vendored front-end, same version as Cargo.lock): generated tables implement the grammar, @L/@R are token boundaries." + " The dynamics of lalrpop_util's recovery are trusted, not analysed.",
    design="DESIGN.md section 4, C14"),
  "C18": dict(
-   technique="byte/char dimension typing of the doc-comment scanner on MIR; grammar-action wiring of `doc`; shape rule on get_javadoc",
-   text="Static, partial by design: (J1) every value used as a str index or subtracted from str::len in find_content_string is byte-typed (a counter advanced by a constant per char is char-typed and reported); (J2) for all documentable constructs doc = get_javadoc(input, capture that is the first symbol of the production), so the backward scan starts at the construct's first token; (J3) get_javadoc scans input[..pos] and maps through parse_javadoc. Which comment the 7-state backward scanner picks and the regex normalisation of the body are NOT decided.",
-   note=TB + " lalrpop 0.19.8 (vendored front-end, same version as Cargo.lock): generated tables implement the grammar, @L/@R are token boundaries.",
+   technique="byte/char dimension typing on MIR; grammar-action wiring of `doc`; extraction of the backward scanner as a finite transducer and of the normaliser as a regex pipeline by abstract interpretation, each simulated on a bounded structured family against a reference written from the statement",
+   text="Static, bounded where stated: (J1) values used as str indices in find_content_string are byte-typed; (J2) for all documentable constructs doc = get_javadoc(input, capture that is the first symbol of the production); (J3) get_javadoc scans input[..pos] and maps through parse_javadoc; (K) the scanner loop is extracted as a 7-state transducer over the characters it distinguishes (one abstractly interpreted loop iteration per state x character class) and the extracted table is simulated on ~4 400 (quick) structured prefixes - preceding text, optional doc comment incl. non-ASCII / CRLF bodies, up to 2-3 items of whitespace, block and line comments - against a forward reference: closest doc comment if only whitespace and ordinary comments follow; (N) parse_javadoc is extracted as a pipeline model (regex constants, replacements, trim set, joiner) evaluated on 64+ doc bodies (paragraphs x lines x tags x LF/CRLF x star/bare layout x Unicode words) against a reference normaliser. Outside the two families nothing is decided.",
+   note=TB + " lalrpop @L of the first symbol is the construct's first token (TB-2); rule N evaluates the extracted regex constants with Python's re (same semantics for the constructs used).",
    design="DESIGN.md section 4, C18"),
  "C19": dict(
    technique="serde attribute consistency analysis over the syntax tree of every type reachable from ast::Aidl (syn), with crate-local skip predicates and Default impls decided by abstract interpretation of their MIR",
